@@ -376,6 +376,27 @@ func genC12(r *Rng, tier string) []Case {
 			}
 		}
 	}
+	// items outside the subset in front of a valid item: well-known tags (incl. 55799 "self-described CBOR")
+	// in every head width, simple values, floats, break - none may be stepped over
+	for _, tag := range []uint64{0, 1, 2, 3, 4, 5, 21, 22, 23, 24, 32, 33, 34, 35, 36, 37, 55799, 55800, 15309736, 1<<64 - 1} {
+		for _, w := range []int{0, 1, 2, 4, 8} {
+			if w == 0 && tag > 23 || w == 1 && tag > 0xff || w == 2 && tag > 0xffff || w == 4 && tag > 0xffffffff {
+				continue
+			}
+			for _, item := range [][]byte{{0x05}, {0x42, 'a', 'b'}, {0x62, 'a', 'b'}, {0x81, 0x05}, {0xa1, 0x01, 0x02}} {
+				for _, k := range decKinds {
+					dec([]string{k, "uint"}, append(headBytes(0xc0, w, tag), item...))
+				}
+			}
+		}
+	}
+	for _, pre := range [][]byte{{0xf4}, {0xf5}, {0xf6}, {0xf7}, {0xf8, 0x20}, {0xf9, 0x3c, 0x00}, {0xfa, 0x3f, 0x80, 0, 0}, {0xfb, 0x3f, 0xf0, 0, 0, 0, 0, 0, 0}, {0xff}, {0x5f}, {0x7f}, {0x9f}, {0xbf}, {0x20}, {0x38, 0x18}} {
+		for _, item := range [][]byte{{0x05}, {0x42, 'a', 'b'}, {0x62, 'a', 'b'}, {0x81, 0x05}} {
+			for _, k := range decKinds {
+				dec([]string{k, "uint"}, append(append([]byte{}, pre...), item...))
+			}
+		}
+	}
 	// text strings with valid / invalid UTF-8 content
 	for i := 0; i < 600; i++ {
 		var s []byte
